@@ -30,38 +30,45 @@ import (
 	"git.torproject.org/pluggable-transports/snowflake.git/v2/common/amp"
 )
 
+type verifC11Poll struct {
+	Status   int    `json:"status"`
+	Location bool   `json:"location"`
+	Size     string `json:"size"`
+	Shape    string `json:"shape"`
+	Poll     struct {
+		Len  int    `json:"len"`
+		Fill string `json:"fill"`
+	} `json:"poll"`
+	Bytes int `json:"bytes"`
+}
+
+type verifC11Expect struct {
+	Req struct {
+		Judged      bool   `json:"judged"`
+		Method      string `json:"method"`
+		Scheme      string `json:"scheme"`
+		URLHost     string `json:"urlhost"`
+		HostHeader  string `json:"hostheader"`
+		Path        string `json:"path"`
+		Poll        string `json:"poll"`
+		MustNotName string `json:"mustnotname"`
+	} `json:"req"`
+	Res string `json:"res"`
+}
+
+// One case = ONE rendezvous object and a sequence of polls on it.
 type verifC11Case struct {
 	Cs struct {
-		Method   string `json:"method"`
-		Broker   string `json:"broker"`
-		Front    string `json:"front"`
-		Cache    string `json:"cache"`
-		Status   int    `json:"status"`
-		Location bool   `json:"location"`
-		Size     string `json:"size"`
-		Shape    string `json:"shape"`
-		Poll     struct {
-			Len  int    `json:"len"`
-			Fill string `json:"fill"`
-		} `json:"poll"`
+		Method string `json:"method"`
+		Broker string `json:"broker"`
+		Front  string `json:"front"`
+		Cache  string `json:"cache"`
 	} `json:"cs"`
-	BrokerURL string `json:"brokerurl"`
-	FrontHost string `json:"fronthost"`
-	CacheURL  string `json:"cacheurl"`
-	Bytes     int    `json:"bytes"`
-	Expect    struct {
-		Req struct {
-			Judged      bool   `json:"judged"`
-			Method      string `json:"method"`
-			Scheme      string `json:"scheme"`
-			URLHost     string `json:"urlhost"`
-			HostHeader  string `json:"hostheader"`
-			Path        string `json:"path"`
-			Poll        string `json:"poll"`
-			MustNotName string `json:"mustnotname"`
-		} `json:"req"`
-		Res string `json:"res"`
-	} `json:"expect"`
+	BrokerURL string           `json:"brokerurl"`
+	FrontHost string           `json:"fronthost"`
+	CacheURL  string           `json:"cacheurl"`
+	Polls     []verifC11Poll   `json:"polls"`
+	Expect    []verifC11Expect `json:"expect"`
 }
 
 type verifC11Result struct {
@@ -154,6 +161,7 @@ type verifC11Transport struct {
 
 func (t *verifC11Transport) RoundTrip(req *http.Request) (*http.Response, error) {
 	t.calls++
+	t.body, t.hasBody = nil, false
 	t.method, t.url, t.scheme, t.urlHost, t.host = req.Method, req.URL.String(), req.URL.Scheme, req.URL.Host, req.Host
 	t.path, t.query = req.URL.EscapedPath(), req.URL.RawQuery
 	if req.Body != nil {
@@ -195,12 +203,12 @@ var verifC11FullLen sync.Map // body size -> payload length of the "armor-full" 
 
 // verifC11MakeBody builds the response body and the payload it carries (nil when
 // it carries none).
-func verifC11MakeBody(c *verifC11Case, key uint64) (body, payload []byte, err error) {
-	size := c.Bytes
-	switch c.Cs.Shape {
+func verifC11MakeBody(method string, pl *verifC11Poll, key uint64) (body, payload []byte, err error) {
+	size := pl.Bytes
+	switch pl.Shape {
 	case "plain":
 		body = verifC11Fill(size, key^0x5555, "rand")
-		if c.Cs.Method == "amp" {
+		if method == "amp" {
 			for i := range body { // keep it free of markup so that it is certainly not armor
 				body[i] = "abcdefghijklmnop \n"[body[i]%18]
 			}
@@ -235,7 +243,7 @@ func verifC11MakeBody(c *verifC11Case, key uint64) (body, payload []byte, err er
 		payload = verifC11Fill(lo, key^0x9999, "rand")
 		return verifC11PadTo(verifC11Armor(payload), size), payload, nil
 	}
-	return nil, nil, fmt.Errorf("unknown body shape %q", c.Cs.Shape)
+	return nil, nil, fmt.Errorf("unknown body shape %q", pl.Shape)
 }
 
 func verifC11One(raw []byte, idx int, seed uint64, put func(verifC11Result)) (nontrivial bool) {
@@ -243,31 +251,13 @@ func verifC11One(raw []byte, idx int, seed uint64, put func(verifC11Result)) (no
 	if err := json.Unmarshal(raw, &c); err != nil {
 		panic(fmt.Sprintf("bad case %d: %v", idx, err))
 	}
-	key := seed*0x1000003 + uint64(idx)*0x9e3779b9
-	report := func(sig, detail string) {
-		put(verifC11Result{Idx: idx, Sig: sig, Detail: detail, Case: c})
+	if len(c.Polls) == 0 || len(c.Polls) != len(c.Expect) {
+		panic(fmt.Sprintf("bad case %d: %d polls, %d expectations", idx, len(c.Polls), len(c.Expect)))
 	}
-	poll := verifC11Fill(c.Cs.Poll.Len, key, c.Cs.Poll.Fill)
-	body, payload, err := verifC11MakeBody(&c, key)
-	if err != nil {
-		panic(fmt.Sprintf("case %d: %v", idx, err))
-	}
-	if c.Cs.Method == "http" {
-		payload = body // the POST response is opaque bytes, armored or not
-	}
-	script := verifC11Scripts[int(verifC11Mix(key, 77))%len(verifC11Scripts)]
-	rb := &verifC11Body{data: body, script: script}
+	// ONE rendezvous object for the whole sequence of polls
 	tr := &verifC11Transport{}
-	tr.resp = func(req *http.Request) (*http.Response, error) {
-		h := http.Header{}
-		h.Set("Content-Type", "text/html")
-		if c.Cs.Location {
-			h.Set("Location", "https://broker.example/elsewhere")
-		}
-		return &http.Response{Status: fmt.Sprintf("%d %s", c.Cs.Status, http.StatusText(c.Cs.Status)), StatusCode: c.Cs.Status,
-			Proto: "HTTP/1.1", ProtoMajor: 1, ProtoMinor: 1, Header: h, Body: rb, ContentLength: -1, Request: req}, nil
-	}
 	var rv RendezvousMethod
+	var err error
 	if c.Cs.Method == "http" {
 		rv, err = newHTTPRendezvous(c.BrokerURL, c.FrontHost, tr)
 	} else {
@@ -276,101 +266,138 @@ func verifC11One(raw []byte, idx int, seed uint64, put func(verifC11Result)) (no
 	if err != nil {
 		panic(fmt.Sprintf("case %d: constructor: %v", idx, err))
 	}
-	pollCopy := append([]byte(nil), poll...)
-	got, gerr := rv.Exchange(pollCopy)
 	conf := fmt.Sprintf("method=%s/front=%s/cache=%s", c.Cs.Method, c.Cs.Front, c.Cs.Cache)
-	nontrivial = c.Cs.Front != "none" || c.Cs.Cache != "none" || c.Cs.Status != 200 || c.Bytes >= 99999
+	for j := range c.Polls {
+		pl, ex := &c.Polls[j], &c.Expect[j]
+		key := seed*0x1000003 + uint64(idx)*0x9e3779b9 + uint64(j)*0x51ed27
+		which := "/poll=first"
+		if j > 0 {
+			which = "/poll=later" // a poll on an object that has been used before
+		}
+		report := func(sig, detail string) {
+			put(verifC11Result{Idx: idx, Sig: sig + which, Detail: fmt.Sprintf("poll %d of %d on one rendezvous object: %s", j+1, len(c.Polls), detail), Case: c})
+		}
+		poll := verifC11Fill(pl.Poll.Len, key, pl.Poll.Fill)
+		body, payload, err := verifC11MakeBody(c.Cs.Method, pl, key)
+		if err != nil {
+			panic(fmt.Sprintf("case %d: %v", idx, err))
+		}
+		if c.Cs.Method == "http" {
+			payload = body // the POST response is opaque bytes, armored or not
+		}
+		script := verifC11Scripts[int(verifC11Mix(key, 77))%len(verifC11Scripts)]
+		rb := &verifC11Body{data: body, script: script}
+		tr.resp = func(req *http.Request) (*http.Response, error) {
+			h := http.Header{}
+			h.Set("Content-Type", "text/html")
+			if pl.Location {
+				h.Set("Location", "https://broker.example/elsewhere")
+			}
+			return &http.Response{Status: fmt.Sprintf("%d %s", pl.Status, http.StatusText(pl.Status)), StatusCode: pl.Status,
+				Proto: "HTTP/1.1", ProtoMajor: 1, ProtoMinor: 1, Header: h, Body: rb, ContentLength: -1, Request: req}, nil
+		}
+		before := tr.calls
+		pollCopy := append([]byte(nil), poll...)
+		got, gerr := rv.Exchange(pollCopy)
+		calls := tr.calls - before
+		if c.Cs.Front != "none" || c.Cs.Cache != "none" || pl.Status != 200 || pl.Bytes >= 99999 || len(c.Polls) > 1 {
+			nontrivial = true
+		}
 
-	// --- the request ---
-	if c.Expect.Req.Judged {
-		e := c.Expect.Req
-		effHost := tr.host
-		if effHost == "" {
-			effHost = tr.urlHost
-		}
-		switch {
-		case tr.calls != 1:
-			report("request/count/"+conf, fmt.Sprintf("%d requests were made", tr.calls))
-			return
-		case tr.method != e.Method:
-			report("request/method/"+conf, fmt.Sprintf("method %s, contract says %s", tr.method, e.Method))
-			return
-		case tr.scheme != e.Scheme:
-			report("request/scheme/"+conf, fmt.Sprintf("URL %q: scheme %s, contract says %s", tr.url, tr.scheme, e.Scheme))
-			return
-		case tr.urlHost != e.URLHost:
-			report("request/url-host/"+conf, fmt.Sprintf("URL %q is addressed to %q, contract says %q", tr.url, tr.urlHost, e.URLHost))
-			return
-		case effHost != e.HostHeader:
-			report("request/host-header/"+conf, fmt.Sprintf("Host header %q (req.Host %q), contract says %q", effHost, tr.host, e.HostHeader))
-			return
-		case e.MustNotName != "" && strings.Contains(tr.url, e.MustNotName):
-			report("request/broker-named-in-url/"+conf, fmt.Sprintf("fronted URL %q names the broker %q", tr.url, e.MustNotName))
-			return
-		case tr.query != "":
-			report("request/query/"+conf, fmt.Sprintf("URL %q has a query", tr.url))
-			return
-		}
-		if e.Poll == "body" {
-			if tr.path != e.Path {
-				report("request/path/"+conf+"/broker="+c.Cs.Broker, fmt.Sprintf("path %q, contract says %q", tr.path, e.Path))
+		// --- the request ---
+		if ex.Req.Judged {
+			e := ex.Req
+			effHost := tr.host
+			if effHost == "" {
+				effHost = tr.urlHost
+			}
+			bad := true
+			switch {
+			case calls != 1:
+				report("request/count/"+conf, fmt.Sprintf("%d requests were made", calls))
+			case tr.method != e.Method:
+				report("request/method/"+conf, fmt.Sprintf("method %s, contract says %s", tr.method, e.Method))
+			case tr.scheme != e.Scheme:
+				report("request/scheme/"+conf, fmt.Sprintf("URL %q: scheme %s, contract says %s", tr.url, tr.scheme, e.Scheme))
+			case tr.urlHost != e.URLHost:
+				report("request/url-host/"+conf, fmt.Sprintf("URL %q is addressed to %q, contract says %q", tr.url, tr.urlHost, e.URLHost))
+			case effHost != e.HostHeader:
+				report("request/host-header/"+conf, fmt.Sprintf("Host header %q (req.Host %q), contract says %q", effHost, tr.host, e.HostHeader))
+			case e.MustNotName != "" && strings.Contains(tr.url, e.MustNotName):
+				report("request/broker-named-in-url/"+conf, fmt.Sprintf("fronted URL %q names the broker %q", tr.url, e.MustNotName))
+			case tr.query != "":
+				report("request/query/"+conf, fmt.Sprintf("URL %q has a query", tr.url))
+			default:
+				bad = false
+			}
+			if bad {
 				return
 			}
-			if !tr.hasBody || !bytes.Equal(tr.body, poll) {
-				report("request/body/"+conf, fmt.Sprintf("request body has %d bytes, the poll %d, or they differ", len(tr.body), len(poll)))
-				return
-			}
-		} else {
-			if !strings.HasPrefix(tr.path, e.Path) {
-				report("request/path/"+conf+"/broker="+c.Cs.Broker, fmt.Sprintf("path %q does not start with %q", tr.path, e.Path))
-				return
-			}
-			dec, err := amp.DecodePath(strings.TrimPrefix(tr.path, e.Path))
-			if e.Poll == "unjudged" {
-				// don't-care of the specification: an empty poll behind a cache
-			} else if err != nil || !bytes.Equal(dec, poll) {
-				report("request/encoded-poll/"+conf, fmt.Sprintf("path suffix %q decodes to %d bytes (err=%v), the poll has %d", strings.TrimPrefix(tr.path, e.Path), len(dec), err, len(poll)))
-				return
-			}
-			if tr.hasBody && len(tr.body) > 0 {
-				report("request/get-with-body/"+conf, "the GET request carries a body")
-				return
-			}
-		}
-	}
-
-	// --- the result ---
-	resSig := fmt.Sprintf("/method=%s/status=%d/location=%v/size=%s/shape=%s", c.Cs.Method, c.Cs.Status, c.Cs.Location, c.Cs.Size, c.Cs.Shape)
-	exact := gerr == nil && bytes.Equal(got, payload)
-	switch c.Expect.Res {
-	case "data":
-		if !exact {
-			what := "error"
-			if gerr == nil {
-				what = "wrong-data"
-				if len(got) < len(payload) && bytes.Equal(got, payload[:len(got)]) {
-					what = "truncated-data"
+			if e.Poll == "body" {
+				if tr.path != e.Path {
+					report("request/path/"+conf+"/broker="+c.Cs.Broker, fmt.Sprintf("path %q, contract says %q", tr.path, e.Path))
+					return
+				}
+				if !tr.hasBody || !bytes.Equal(tr.body, poll) {
+					report("request/body/"+conf, fmt.Sprintf("request body has %d bytes, the poll %d, or they differ", len(tr.body), len(poll)))
+					return
+				}
+			} else {
+				if !strings.HasPrefix(tr.path, e.Path) {
+					report("request/path/"+conf+"/broker="+c.Cs.Broker, fmt.Sprintf("path %q does not start with %q", tr.path, e.Path))
+					return
+				}
+				dec, err := amp.DecodePath(strings.TrimPrefix(tr.path, e.Path))
+				if e.Poll == "unjudged" {
+					// don't-care of the specification: an empty poll behind a cache
+				} else if err != nil || !bytes.Equal(dec, poll) {
+					report("request/encoded-poll/"+conf, fmt.Sprintf("path suffix %q decodes to %d bytes (err=%v), the poll has %d", strings.TrimPrefix(tr.path, e.Path), len(dec), err, len(poll)))
+					return
+				}
+				if tr.hasBody && len(tr.body) > 0 {
+					report("request/get-with-body/"+conf, "the GET request carries a body")
+					return
 				}
 			}
-			report("result/expect=data/got="+what+resSig, fmt.Sprintf("Exchange returned %d bytes, err=%v; contract says exactly the %d bytes sent", len(got), gerr, len(payload)))
 		}
-	case "error":
-		if gerr == nil {
-			what := "data"
-			if len(got) < len(payload) {
-				what = "truncated-data"
+
+		// --- the result ---
+		resSig := fmt.Sprintf("/method=%s/status=%d/location=%v/size=%s/shape=%s", c.Cs.Method, pl.Status, pl.Location, pl.Size, pl.Shape)
+		exact := gerr == nil && bytes.Equal(got, payload)
+		switch ex.Res {
+		case "data":
+			if !exact {
+				what := "error"
+				if gerr == nil {
+					what = "wrong-data"
+					if len(got) < len(payload) && bytes.Equal(got, payload[:len(got)]) {
+						what = "truncated-data"
+					}
+				}
+				report("result/expect=data/got="+what+resSig, fmt.Sprintf("Exchange returned %d bytes, err=%v; contract says exactly the %d bytes sent", len(got), gerr, len(payload)))
+				return
 			}
-			report("result/expect=error/got="+what+resSig, fmt.Sprintf("Exchange returned %d bytes without error (body of %d bytes, status %d)", len(got), len(body), c.Cs.Status))
+		case "error":
+			if gerr == nil {
+				what := "data"
+				if len(got) < len(payload) {
+					what = "truncated-data"
+				}
+				report("result/expect=error/got="+what+resSig, fmt.Sprintf("Exchange returned %d bytes without error (body of %d bytes, status %d)", len(got), len(body), pl.Status))
+				return
+			}
+		case "any":
+			if gerr == nil && !exact && ex.Req.Judged {
+				report("result/expect=any/got=wrong-data"+resSig, fmt.Sprintf("Exchange returned %d bytes that are not the %d bytes sent", len(got), len(payload)))
+				return
+			}
+		default:
+			panic("unknown expected result class " + ex.Res)
 		}
-	case "any":
-		if gerr == nil && !exact && c.Expect.Req.Judged {
-			report("result/expect=any/got=wrong-data"+resSig, fmt.Sprintf("Exchange returned %d bytes that are not the %d bytes sent", len(got), len(payload)))
+		if calls > 0 && !rb.closed {
+			report("result/body-not-closed/"+conf, "the response body was not closed")
+			return
 		}
-	default:
-		panic("unknown expected result class " + c.Expect.Res)
-	}
-	if tr.calls > 0 && !rb.closed {
-		report("result/body-not-closed/"+conf, "the response body was not closed")
 	}
 	return
 }
@@ -415,7 +442,14 @@ func TestVerifC11Rendezvous(t *testing.T) {
 		w.WriteByte('\n')
 		mu.Unlock()
 	}
-	nontrivial := 0
+	nontrivial, exchanges := 0, 0
+	for _, raw := range cases {
+		var c struct {
+			Polls []json.RawMessage `json:"polls"`
+		}
+		json.Unmarshal(raw, &c)
+		exchanges += len(c.Polls)
+	}
 	ch := make(chan int, 256)
 	var wg sync.WaitGroup
 	for k := 0; k < runtime.NumCPU(); k++ {
@@ -450,7 +484,7 @@ func TestVerifC11Rendezvous(t *testing.T) {
 	}
 	close(ch)
 	wg.Wait()
-	put(map[string]interface{}{"summary": map[string]interface{}{"cases": len(cases), "nontrivial": nontrivial}})
+	put(map[string]interface{}{"summary": map[string]interface{}{"cases": len(cases), "nontrivial": nontrivial, "exchanges": exchanges}})
 	if err := w.Flush(); err != nil {
 		t.Fatal(err)
 	}
